@@ -51,6 +51,11 @@ def generate(tp: Tape, tier: str):
         inp = dict(shape=[max(n, m), m], chunks=[c, tp.choice([m, m, max(1, m - 1)])], dtype="float64",
                    src=tp.choice(["asarray", "from_zarr"]), data_seed=tp.randint(0, 10**6), nan=False)
         op = tp.choice(["qr_recon", "svd_recon", "svd_s", "qr"])
+        if op.startswith("svd") and tp.coin(1, 2):
+            # wide or square matrices, in one chunk or split along either axis (NumPy's reduced SVD takes them all)
+            r, q = tp.randint(1, 5), tp.randint(1, 7)
+            inp = dict(shape=[r, q], chunks=[tp.choice([r, r, max(1, r // 2)]), tp.choice([q, q, max(1, q // 2)])],
+                       dtype="float64", src=tp.choice(["asarray", "from_zarr"]), data_seed=tp.randint(0, 10**6), nan=False)
         case["prog"] = dict(inputs=[inp], steps=[dict(op=op, args=[0], p={})], outputs=[1])
     elif k == "scan_many_chunks":
         # scans over many chunks: the supported chunk counts form a pattern (<= 5, or multiples of 5 at every level)
